@@ -124,12 +124,23 @@ func (mc *MemCtx) zero(s Sort) *Term {
 	panic("zero sort")
 }
 
+// anyIdxSfx in a suffix stands for "any index of an inner array" (only for matching, never for building an address).
+const anyIdxSfx = -1 << 40
+
 // elemMatch decomposes address a as  suffix(Idx(base, i))  and returns (condition, i).
 func (mc *MemCtx) elemMatch(a, base *Term, sfx []int) (*Term, *Term) {
 	c := mc.c
 	cond := c.True
 	cur := a
 	for k := len(sfx) - 1; k >= 0; k-- {
+		if sfx[k] == anyIdxSfx { // any element of an inner array (zeroing of nested arrays)
+			cond = c.And(cond, c.IsIdx(cur))
+			if cond.IsFalse() {
+				return cond, nil
+			}
+			cur = c.IdxBase(cur)
+			continue
+		}
 		cond = c.And(cond, c.FldIdIs(cur, sfx[k]))
 		if cond.IsFalse() {
 			return cond, nil
